@@ -303,6 +303,8 @@ def explore(sched, make_bodies, check, bound, max_executions=None):
         for fp, msg in check(x, ctx):
             stats['violations'].append((fp, msg, list(x.choices)))
         stats['outcomes'].add(ctx.get('outcome_key'))
+        if prefix:
+            stats['last_schedule'] = list(x.choices)
         if max_executions and stats['executions'] >= max_executions:
             stats['capped'] = True
             break
